@@ -96,6 +96,10 @@ def single_caller(prog, d):
     return next(iter(cs)) if len(cs) == 1 else None
 
 
+def _norm_overflow(key):
+    return re.sub(r"\)\.0", ")", key.replace("WithOverflow", ""))
+
+
 def _folded_key(prog, b, d, descr):
     """Key of a site inside a closure as if it stood in the enclosing function: `::{closure}` dropped from the
     function part, captured operands (`param #1.N`) named by the captured place (`self.from`)."""
@@ -125,6 +129,9 @@ def run(ctx, F):
             fk = re.sub(r"(::\{closure\})+", "", fnp) + "|" + dsc
             reviewed_folded[fk] = None if fk in reviewed_folded or fk in reviewed else k
     reviewed_folded = {a: b_ for a, b_ in reviewed_folded.items() if b_}
+    reviewed_norm = {}
+    for k in reviewed:
+        reviewed_norm.setdefault(_norm_overflow(k), k)
     roots = entry_points(prog, ctx)
     seen_all = reach(prog, roots)
     seen_nostatic = reach(prog, roots, skip_reasons=("static-ref",))
@@ -164,6 +171,14 @@ def run(ctx, F):
                 continue
             if key in reviewed:
                 ctx.reviewed("F1-panic", key, reviewed[key])
+                ctx.count("reviewed")
+                continue
+            # a release build has no overflow checks: `AddWithOverflow(x, y).0` of the debug MIR is `Add(x, y)` there;
+            # a row reviewed for one spelling covers the other (same operation, same operands)
+            nk = _norm_overflow(key)
+            if nk in reviewed_norm:
+                rk = reviewed_norm[nk]
+                ctx.reviewed("F1-panic", rk, reviewed[rk] + (" (operand spelled without the overflow-checked addition in this build configuration)" if rk != key else ""))
                 ctx.count("reviewed")
                 continue
             fk = _folded_key(prog, b, d, descr)
